@@ -1,7 +1,7 @@
 //@ unit R_unchecked
 //@ props C14 C01
 //@ strength proved-unbounded
-//@ min-verified 20
+//@ min-verified 49
 //@ note The ReadUnchecked trait is given the contract its doc comment states ("Must read exactly SIZE bytes"; unsafe because the caller
 //@ note must have checked availability).  Every primitive impl, the tuple impls (generic in T1..T4) and ReadArrayIter::next are then
 //@ note verified, for ALL type parameters, against that contract.
